@@ -28,6 +28,7 @@ type realTask struct {
 	exit      int
 	parseErr  bool // the script does not parse: a failure without an exit status, before any process starts
 	allowFail bool
+	ignoreInt bool // the process ignores SIGINT: only the kill timeout ends it
 }
 
 func (t realTask) fails() bool { return t.exit != 0 || t.parseErr }
@@ -61,7 +62,11 @@ func genRealGraph(t *rapid.T, maxTasks int, withFailures bool) []realTask {
 func graphDef(vh, marker, ready string, ts []realTask, cont bool) definition.PipelineDef {
 	pd := definition.PipelineDef{Concurrency: 1, ContinueRunningTasksAfterFailure: cont, SourcePath: "gen", Tasks: map[string]definition.TaskDef{}}
 	for _, tk := range ts {
-		script := fmt.Sprintf("%s hang %s-%s --ready %s.%s --for %dms --exit %d", vh, marker, tk.name, ready, tk.name, tk.durMs, tk.exit)
+		flags := ""
+		if tk.ignoreInt {
+			flags = " --ignore-int"
+		}
+		script := fmt.Sprintf("%s hang %s-%s%s --ready %s.%s --for %dms --exit %d", vh, marker, tk.name, flags, ready, tk.name, tk.durMs, tk.exit)
 		if tk.parseErr {
 			script = "echo 'unterminated " + tk.name
 		}
@@ -86,6 +91,9 @@ func describeGraph(ts []realTask) string {
 		}
 		if tk.allowFail {
 			s += " af"
+		}
+		if tk.ignoreInt {
+			s += " ignores-interrupt"
 		}
 		parts = append(parts, s)
 	}
@@ -231,10 +239,17 @@ func TestC08Real(t *testing.T) {
 
 // TestC04Real: cancel at a generated instant with the real task runner and the real 50 ms poll.
 func TestC04Real(t *testing.T) {
-	col := ev.Get("C04", "realrunner", "real TaskRunner, real processes and the real 50 ms scheduler poll: a generated graph of 2-5 'vhelper hang' tasks (5-90 ms each) is canceled at a generated instant between 0 and its total run time, so that cancels land while tasks run, in the poll gap between two tasks, and around completion; oracle: the cancel is acknowledged (or the job had already completed and is left unchanged); no task begins later than 100 ms after the acknowledgement; the job ends reported canceled unless every task had run to its end; no task process survives; non-trivial = the cancel was acknowledged while the job was running and had tasks left to start; distinct by (graph, instant)")
+	col := ev.Get("C04", "realrunner", "real TaskRunner, real processes and the real 50 ms scheduler poll: a generated graph of 2-5 'vhelper hang' tasks (5-90 ms each; a quarter of them ignore the interrupt and run 400 ms longer, so that only the kill timeout of 300 ms ends them) is canceled at a generated instant between 0 and its total run time, so that cancels land while tasks run, in the poll gap between two tasks, and around completion; oracle: the cancel is acknowledged (or the job had already completed and is left unchanged); no task begins later than 100 ms after the acknowledgement; the job ends reported canceled unless every task had run to its end; no task process survives; non-trivial = the cancel was acknowledged while the job was running and had tasks left to start; distinct by (graph, instant)")
 	vh := helper(t)
 	rapid.Check(t, func(rt *rapid.T) {
 		ts := genRealGraph(rt, 5, false)
+		for i := range ts {
+			// a task that ignores the interrupt is ended by the kill timeout (300 ms): canceled all the same
+			if rapid.IntRange(0, 3).Draw(rt, "ignoresInterrupt") == 0 {
+				ts[i].ignoreInt = true
+				ts[i].durMs += 400
+			}
+		}
 		total := 0
 		for _, tk := range ts {
 			total += tk.durMs + 50
